@@ -7,6 +7,7 @@ import Lmd.Frame
 import Lmd.Sync
 import Lmd.Cluster
 import Lmd.Distributed
+import Lmd.Lemmas.BodyLemmas
 
 open Lean (Json)
 open Lmd
@@ -334,7 +335,13 @@ def handleQuery (st : State) (j : Json) (dist : Option (List (List String) × Li
             match evalData st t (EvalMode.code Quirks.none) Quirks.none text optimize false false dist with
             | some (req', m', _) => dataAgrees req' m' spec
             | none => false
-          Json.mkObj (base ++ [("parse", .str "ok"), ("kind", .str "data"),
+          -- the body text as `Lmd.Body` assembles it (the definitions `Props/C10Body.lean` is about), where the row order is
+          -- determined: at most one backend answers, no Sort (ties are ordered by an unstable sort), not distributed
+          let bodyField : List (String × Json) :=
+            if (selectBackends st.ds t req).peers.length ≤ 1 && dist.isNone && req.sort.isEmpty then
+              [("body", .str (Lmd.Body.answerBody st.schema st.ds t req (dataQuery (EvalMode.code Quirks.current) st.schema st.ds t req) 0))]
+            else []
+          Json.mkObj (base ++ bodyField ++ [("parse", .str "ok"), ("kind", .str "data"),
             ("offset", .num ⟨(req.offset : Int), 0⟩),
             ("limit", match req.limit with | some l => .num ⟨(l : Int), 0⟩ | none => .null),
             ("wrapped", .bool (req.outFmt == .wrapped)),
